@@ -275,6 +275,9 @@ pub fn check(c: &Case, stats: &mut Stats) -> CheckResult {
     if (0..3).any(|k| m1.direct[k].iter().any(|(id, t)| t.1.len() > 30 && m2.direct[k].get(id).is_some_and(|t2| t2.1.len() > 30 && t2.1 != t.1))) {
         stats.label("record-with-more-than-30-terms-on-both-sides-changed");
     }
+    if m1.ids.iter().any(|id| m2.idx.get(id).is_some_and(|j| m1.parents[m1.i(*id)].len() > 30 && m2.parents[*j].len() > 30 && m1.parents[m1.i(*id)] != m2.parents[*j])) {
+        stats.label("term-with-more-than-30-parents-on-both-sides-changed");
+    }
     for e in &c.edits {
         stats.label(&format!("edit:{e}"));
     }
@@ -467,7 +470,7 @@ pub fn apply_edit(f: &mut Facts, kind: usize, p: [u16; 3], name: &str) -> Option
 fn wide_record_strategy() -> BoxedStrategy<Case> {
     let cfg = GenCfg::small().terms(34, 72).recs(2).standard().with_flags(true).names(NameMode::Plain);
     let paths = prop_oneof![4 => Just(PathSel::Bin(3)), 1 => Just(PathSel::Bin(1)), 1 => Just(PathSel::Jax), 1 => Just(PathSel::BuilderDefaults)];
-    (gen::facts(cfg), vec(any::<u8>(), 72), vec((0usize..3, 0u8..6, any::<u16>()), 1..=3), paths)
+    (gen::facts(cfg), vec(any::<u8>(), 72), vec((0usize..4, 0u8..6, any::<u16>()), 1..=3), paths)
         .prop_map(|(mut old, mask, script, path)| {
             if path == PathSel::BuilderDefaults {
                 for t in old.terms.iter_mut() {
@@ -493,41 +496,62 @@ fn wide_record_strategy() -> BoxedStrategy<Case> {
                 }
                 old.recs[k][0].terms = terms;
             }
+            // and a new leaf term with 31 or more direct parents
+            let mut wide = 3_000_000u32;
+            while ids.contains(&wide) {
+                wide += 1;
+            }
+            old.terms.push(TermFact { id: wide, name: "wide child".into(), obsolete: false, replacement: None });
+            let mut wide_parents: Vec<u32> = ids.iter().enumerate().filter(|(i, _)| mask[(i + 31) % mask.len()] % 10 != 1).map(|(_, t)| *t).collect();
+            for t in &ids {
+                if wide_parents.len() >= 32 {
+                    break;
+                }
+                if !wide_parents.contains(t) {
+                    wide_parents.push(*t);
+                }
+            }
             old.ann_calls = old.canonical_ann_calls();
             let mut new = old.clone();
+            let mut new_parents = wide_parents.clone();
             let mut edits = Vec::new();
             for (k, what, sel) in script {
-                let r = &mut new.recs[k][0];
-                r.terms.sort_unstable();
-                let missing: Vec<u32> = ids.iter().copied().filter(|t| !r.terms.contains(t)).collect();
+                // the list that is edited: the direct terms of a record or the parents of the wide term
+                let on_parents = k == 3;
+                let list: &mut Vec<u32> = if on_parents { &mut new_parents } else { &mut new.recs[k][0].terms };
+                list.sort_unstable();
+                let missing: Vec<u32> = ids.iter().copied().filter(|t| !list.contains(t)).collect();
+                let (rm, add) = if on_parents { ("remove-parent", "add-parent") } else { ("remove-link", "add-link") };
                 match what {
-                    0 if r.terms.len() > 31 => {
-                        r.terms.pop();
-                        edits.push("remove-link".to_string());
+                    0 if list.len() > 31 => {
+                        list.pop();
+                        edits.push(rm.to_string());
                     }
-                    1 if r.terms.len() > 31 => {
-                        r.terms.remove(0);
-                        edits.push("remove-link".to_string());
+                    1 if list.len() > 31 => {
+                        list.remove(0);
+                        edits.push(rm.to_string());
                     }
-                    2 if r.terms.len() > 31 => {
-                        r.terms.remove(pick(sel, r.terms.len()));
-                        edits.push("remove-link".to_string());
+                    2 if list.len() > 31 => {
+                        list.remove(pick(sel, list.len()));
+                        edits.push(rm.to_string());
                     }
                     3 if !missing.is_empty() => {
-                        r.terms.push(*missing.last().unwrap());
-                        edits.push("add-link".to_string());
+                        list.push(*missing.last().unwrap());
+                        edits.push(add.to_string());
                     }
                     4 if !missing.is_empty() => {
-                        r.terms.push(missing[0]);
-                        edits.push("add-link".to_string());
+                        list.push(missing[0]);
+                        edits.push(add.to_string());
                     }
                     _ if !missing.is_empty() => {
-                        r.terms.push(missing[pick(sel, missing.len())]);
-                        edits.push("add-link".to_string());
+                        list.push(missing[pick(sel, missing.len())]);
+                        edits.push(add.to_string());
                     }
                     _ => {}
                 }
             }
+            old.edges.extend(wide_parents.iter().map(|p| (wide, *p)));
+            new.edges.extend(new_parents.iter().map(|p| (wide, *p)));
             new.ann_calls = new.canonical_ann_calls();
             Case { old, new, edits, path }
         })
@@ -579,7 +603,7 @@ impl Property for C18 {
         "C18"
     }
     fn rule(&self) -> String {
-        "Generated: a base fact set (both ontologies built through own v3 / v2 / v1 bytes, the as_bytes round trip or JAX files; obsolete terms, replacements to existing and to non-existing ids, records of all kinds) and an edit script of 0-4 edits out of 15 kinds (rename term, add/remove parent link, flip obsolete, set replacement to an existing / non-existing id, clear replacement, change replacement between two ids that are not terms, add/remove term, add/remove/rename record, add/remove link); one case in thirteen has 34-72 terms and per kind a record directly on >= 31 of them, with links added / removed at the lowest id, the highest id or in between. Oracle: the difference computed on the two fact sets: added/removed id sets per entity kind; changed terms with exact name pair, added/removed parent sets, obsolete pair, replacement id pair; changed records with name pair, added/removed terms, n_terms; every list free of duplicates; compare(new,old) is the mirror image; compare(o,o) reports nothing and compare(o, roundtrip(o)) exactly the names the binary format cuts at 255 bytes (text path: names up to 300 bytes; one rename in three extends the old name, so that long names share a long prefix, one in three only swaps the ASCII case of its letters). evaluations = comparisons. Non-trivial = the two fact sets differ; every edit kind must occur as a single-edit script in a run; distinct by hash of the case.".into()
+        "Generated: a base fact set (both ontologies built through own v3 / v2 / v1 bytes, the as_bytes round trip or JAX files; obsolete terms, replacements to existing and to non-existing ids, records of all kinds) and an edit script of 0-4 edits out of 15 kinds (rename term, add/remove parent link, flip obsolete, set replacement to an existing / non-existing id, clear replacement, change replacement between two ids that are not terms, add/remove term, add/remove/rename record, add/remove link); one case in thirteen has 34-72 terms and per kind a record directly on >= 31 of them, with links added / removed at the lowest id, the highest id or in between, plus a leaf term with >= 31 direct parents whose parent list is edited the same way. Oracle: the difference computed on the two fact sets: added/removed id sets per entity kind; changed terms with exact name pair, added/removed parent sets, obsolete pair, replacement id pair; changed records with name pair, added/removed terms, n_terms; every list free of duplicates; compare(new,old) is the mirror image; compare(o,o) reports nothing and compare(o, roundtrip(o)) exactly the names the binary format cuts at 255 bytes (text path: names up to 300 bytes; one rename in three extends the old name, so that long names share a long prefix, one in three only swaps the ASCII case of its letters). evaluations = comparisons. Non-trivial = the two fact sets differ; every edit kind must occur as a single-edit script in a run; distinct by hash of the case.".into()
     }
     fn assumptions(&self) -> Vec<String> {
         vec!["'replacement' of a term is the replacement id stored with it (replacement_id), whether or not that id is a term of the same ontology".into()]
@@ -594,7 +618,7 @@ impl Property for C18 {
         vec![
             "nontrivial", "single:rename-term", "single:add-parent", "single:remove-parent", "single:flip-obsolete", "single:set-replacement-existing", "single:set-replacement-dangling",
             "single:clear-replacement", "single:add-term", "single:remove-term", "single:add-record", "single:remove-record", "single:rename-record", "single:add-link", "single:remove-link",
-            "single:change-replacement-dangling-to-dangling", "name-longer-than-255-bytes", "bulk>65535-terms", "replacement-id-0", "record-with-more-than-30-terms-on-both-sides-changed",
+            "single:change-replacement-dangling-to-dangling", "name-longer-than-255-bytes", "bulk>65535-terms", "replacement-id-0", "record-with-more-than-30-terms-on-both-sides-changed", "term-with-more-than-30-parents-on-both-sides-changed",
         ]
     }
     fn run_generated(&self, tier: Tier, seed: u64, n: u64, stats: &mut Stats) -> Option<(Value, Failure)> {
